@@ -85,7 +85,7 @@ def main():
                 try:
                     r = o.run(pid, open_ids)
                 except Exception as e:
-                    r = Result(o.name, 'inconclusive', o.engine, 'engine exception: %s' % traceback.format_exc()[-800:], o.bounds)
+                    r = Result(o.name, 'inconclusive', o.engine, 'engine exception: %s' % traceback.format_exc()[-1500:], o.bounds)
         finally:
             with cv:
                 state['used'] -= w
